@@ -71,3 +71,5 @@ pub(crate) use harness;
 pub mod script;
 
 pub mod u_selector;
+pub mod u_builder;
+pub mod u_builder_gen;
